@@ -48,10 +48,21 @@ func conditioningMethodReturn(
 
 	defineArgTs := getEvaluatedDefineArgs(m, class, methodT)
 
+	// the position computed from the arguments selects one of the declared returns; a call
+	// with more arguments than declared returns (reported elsewhere as an arity error) selects
+	// none, and the unconditioned return stands
+	pick := func(idx int) *base.T {
+		variants := methodT.GetVariants()
+		if idx >= len(variants) {
+			return methodT
+		}
+
+		return &variants[idx]
+	}
+
 	for _, defineArgT := range defineArgTs {
 		if defineArgT.HasDefault() {
-			variants := methodT.GetVariants()
-			return &variants[len(removeBlockTypeArgs(evaluatedArgs))]
+			return pick(len(removeBlockTypeArgs(evaluatedArgs)))
 		}
 
 		if defineArgT.IsUnionType() {
@@ -60,8 +71,7 @@ func conditioningMethodReturn(
 					isAny := variant.IsAnyType() || argT.IsAnyType()
 
 					if variant.GetType() == argT.GetType() || (isAny) {
-						variants := methodT.GetVariants()
-						return &variants[idx]
+						return pick(idx)
 					}
 				}
 			}
@@ -73,8 +83,7 @@ func conditioningMethodReturn(
 			isAny := defineArgT.IsAnyType() || argT.IsAnyType()
 
 			if defineArgT.GetType() == argT.GetType() || (isAny) {
-				variants := methodT.GetVariants()
-				return &variants[idx]
+				return pick(idx)
 			}
 		}
 	}
